@@ -28,20 +28,27 @@ Definition hinit (cfg : list N) : st := init (lim_of cfg) (ninit_of cfg).
 (* every blocked actor whose wait channel is closed wakes up and runs to its gate *)
 Definition settle (s : st) : st := fold_left (fun s a => step s (Wake a)) (seq 0 (length (acts s))) s.
 (* actor a has just reached its select: ready cases fire (the harness never makes two of them ready at once) *)
-Definition after (s : st) (a : nat) : st := settle (step (step (step s (CancelWake a)) (ErrWake a)) (Wake a)).
+Definition after (s : st) (a : nat) : st := step (step (step s (CancelWake a)) (ErrWake a)) (Wake a).
+
+Definition t1 (p : N * N * N) : N := fst (fst p).
+Definition t2 (p : N * N * N) : N := snd (fst p).
+Definition t3 (p : N * N * N) : N := snd p.
+Definition untriple (p : N * N * N) : list N := [t1 p; t2 p; t3 p].
 
 Definition code_res (r : res) : N := match r with RNil => 4 | RCanceled => 5 | RErr => 6 end%N.
-Definition code_actor (x : actor) : list N :=
+Definition atrip (x : actor) : N * N * N :=
   match pc x with
-  | PGate _ | IGate _ | SGate => [1; 0; 0]
-  | IWait _ _ | SWait _ => [2; 0; 0]
-  | SCb _ q r => [3; N.of_nat q; N.of_nat r]
-  | IRet _ r | SRet r => [code_res r; 0; 0]
-  | PRet q r => [7; N.of_nat q; N.of_nat r]
+  | PGate _ | IGate _ | SGate => (1, 0, 0)
+  | IWait _ _ | SWait _ => (2, 0, 0)
+  | SCb _ q r => (3, N.of_nat q, N.of_nat r)
+  | IRet _ r | SRet r => (code_res r, 0, 0)
+  | PRet q r => (7, N.of_nat q, N.of_nat r)
   end%N.
+Definition code_actor (x : actor) : list N := untriple (atrip x).
 Definition code_wk (p : wpc) : N :=
   match p with WNone => 0 | WGate => 1 | WExit => 8 | WRun j => 10 + N.of_nat j end%N.
-Definition code_job (r : jrec) : list N := [N.of_nat (ent r); N.of_nat (fin r); code_wk (wk r)].
+Definition jtrip (r : jrec) : N * N * N := (N.of_nat (ent r), N.of_nat (fin r), code_wk (wk r)).
+Definition code_job (r : jrec) : list N := untriple (jtrip r).
 
 Definition obs (s : st) : list N :=
   [N.of_nat (length (acts s)); N.of_nat (length (jobs s))] ++ flat_map code_actor (acts s) ++ flat_map code_job (jobs s).
@@ -50,52 +57,71 @@ Definition is_waiter (p : apc) : bool := match p with PGate _ | PRet _ _ => fals
 Definition is_idle_call (p : apc) : bool := match p with IGate _ | IWait _ _ | IRet _ _ => true | _ => false end.
 Definition in_cb (p : apc) : bool := match p with SCb _ _ _ => true | _ => false end.
 
-Definition hstep (s : st) (e : list N) : option (st * list N) :=
-  let ret s' := Some (s', obs s') in
+(* decoded harness events *)
+Inductive hev :=
+| HEnq (n : nat) | HIdle (k : bool) | HWatch (k : bool) | HSect (a : nat) | HWSect (w : nat) | HDone (w : nat)
+| HCb (a o : nat) | HCancel (a : nat) | HErr (a : nat) (v : bool) | HClose (a : nat).
+
+Definition decode (e : list N) : option hev :=
   match e with
-  | [1; n] => if N.leb n 64 then ret (step s (CallEnq (N.to_nat n))) else None
-  | [2; k] => ret (step s (CallIdle (N.eqb k 1)))
-  | [3; k] => ret (step s (CallWatch (N.eqb k 1)))
-  | [4; a] =>
-    let a := N.to_nat a in
-    match nth_error (acts s) a with
-    | Some x => if at_gate x then ret (after (step s (Sect a)) a) else None
-    | None => None
-    end
-  | [5; w] =>
-    let w := N.to_nat w in
-    if at_wgate (nth w (jobs s) jd) then ret (settle (step s (WSect w))) else None
-  | [6; w] =>
-    let w := N.to_nat w in
-    if in_user (nth w (jobs s) jd) then ret (step s (JobDone w)) else None
-  | [7; a; o] =>
-    let a := N.to_nat a in
-    match nth_error (acts s) a with
-    | Some x => if in_cb (pc x) && N.leb o 3 then ret (after (step s (CbRet a (N.to_nat o))) a) else None
-    | None => None
-    end
-  | [8; a] =>
-    let a := N.to_nat a in
-    match nth_error (acts s) a with
-    | Some x => if is_waiter (pc x) then ret (step (step s (CancelCtx a)) (CancelWake a)) else None
-    | None => None
-    end
-  | [9; a; v] =>
-    let a := N.to_nat a in
-    match nth_error (acts s) a with
-    | Some x => if is_idle_call (pc x) && ehas x && negb (eclosed x) && N.leb v 1
-                then ret (step (step s (ErrSend a (N.eqb v 1))) (ErrWake a)) else None
-    | None => None
-    end
-  | [10; a] =>
-    let a := N.to_nat a in
-    match nth_error (acts s) a with
-    | Some x => if is_idle_call (pc x) && ehas x && negb (eclosed x)
-                then ret (step (step s (ErrClose a)) (ErrWake a)) else None
-    | None => None
-    end
+  | [1; n] => if N.leb n 64 then Some (HEnq (N.to_nat n)) else None
+  | [2; k] => Some (HIdle (N.eqb k 1))
+  | [3; k] => Some (HWatch (N.eqb k 1))
+  | [4; a] => Some (HSect (N.to_nat a))
+  | [5; w] => Some (HWSect (N.to_nat w))
+  | [6; w] => Some (HDone (N.to_nat w))
+  | [7; a; o] => if N.leb o 3 then Some (HCb (N.to_nat a) (N.to_nat o)) else None
+  | [8; a] => Some (HCancel (N.to_nat a))
+  | [9; a; v] => if N.leb v 1 then Some (HErr (N.to_nat a) (N.eqb v 1)) else None
+  | [10; a] => Some (HClose (N.to_nat a))
   | _ => None
   end%N.
+
+(* the model steps of one harness event; None = the implementation could not have produced it now *)
+Definition hstep1 (s : st) (h : hev) : option st :=
+  match h with
+  | HEnq n => Some (step s (CallEnq n))
+  | HIdle k => Some (step s (CallIdle k))
+  | HWatch k => Some (step s (CallWatch k))
+  | HSect a =>
+    match nth_error (acts s) a with
+    | Some x => if at_gate x then Some (after (step s (Sect a)) a) else None
+    | None => None
+    end
+  | HWSect w => if at_wgate (nth w (jobs s) jd) then Some (step s (WSect w)) else None
+  | HDone w => if in_user (nth w (jobs s) jd) then Some (step s (JobDone w)) else None
+  | HCb a o =>
+    match nth_error (acts s) a with
+    | Some x => if in_cb (pc x) then Some (after (step s (CbRet a o)) a) else None
+    | None => None
+    end
+  | HCancel a =>
+    match nth_error (acts s) a with
+    | Some x => if is_waiter (pc x) then Some (step (step s (CancelCtx a)) (CancelWake a)) else None
+    | None => None
+    end
+  | HErr a v =>
+    match nth_error (acts s) a with
+    | Some x => if is_idle_call (pc x) && ehas x && negb (eclosed x)
+                then Some (step (step s (ErrSend a v)) (ErrWake a)) else None
+    | None => None
+    end
+  | HClose a =>
+    match nth_error (acts s) a with
+    | Some x => if is_idle_call (pc x) && ehas x && negb (eclosed x)
+                then Some (step (step s (ErrClose a)) (ErrWake a)) else None
+    | None => None
+    end
+  end.
+
+Definition hstep (s : st) (e : list N) : option (st * list N) :=
+  match decode e with
+  | Some h => match hstep1 s h with
+              | Some s1 => let s' := settle s1 in Some (s', obs s')
+              | None => None
+              end
+  | None => None
+  end.
 
 (* ---------------- monitors: clauses of property 18 on the implementation's observations only ----------------
    clause 1  jobs inside their function <= limit (limit > 0)
@@ -124,47 +150,55 @@ Fixpoint prefix_closed (l : list bool) : bool :=
   | false :: t => forallb negb t
   end.
 
-Definition t1 (p : N * N * N) : N := fst (fst p).
-Definition t2 (p : N * N * N) : N := snd (fst p).
-Definition t3 (p : N * N * N) : N := snd p.
+(* the clauses on the decoded observation: limit, per API actor (kind, jobs enqueued at its call) and triple, per job triple *)
+Definition exec_of (jl : list (N * N * N)) : N := fold_right (fun p acc => (t1 p - t2 p + acc)%N) 0%N jl.
+Definition quiet_of (al jl : list (N * N * N)) : bool :=
+  forallb (fun p => negb (N.eqb (t1 p) 1)) al && forallb (fun p => negb (N.eqb (t3 p) 1)) jl.
+Definition allfin_of (jl : list (N * N * N)) : bool := forallb (fun p => N.leb 1 (t2 p)) jl.
+
+Definition cl1 (lim : Z) (jl : list (N * N * N)) : bool :=
+  if (0 <? lim)%Z then (Z.of_N (exec_of jl) <=? lim)%Z else true.
+Definition cl2 (jl : list (N * N * N)) : bool := forallb (fun p => N.leb (t1 p) 1) jl.
+Definition cl3 (al jl : list (N * N * N)) : bool :=
+  if quiet_of al jl && N.eqb (exec_of jl) 0 then forallb (fun p => N.eqb (t1 p) 1) jl else true.
+Definition cl4 (lim : Z) (jl : list (N * N * N)) : bool :=
+  if (lim =? 1)%Z then prefix_closed (map (fun p => N.leb 1 (t1 p)) jl) else true.
+Definition cl5 (lim : Z) (al : list (N * N * N)) : bool :=
+  if (0 <? lim)%Z
+  then forallb (fun p => if N.eqb (t1 p) 7 || N.eqb (t1 p) 3
+                         then (if N.ltb 0 (t2 p) then (Z.of_N (t3 p) =? lim)%Z else true) else true) al
+  else true.
+Definition cl6 (ka : list ((N * nat) * (N * N * N))) (jl : list (N * N * N)) : bool :=
+  forallb (fun kp : (N * nat) * (N * N * N) =>
+             if N.eqb (fst (fst kp)) 2 && N.eqb (t1 (snd kp)) 4
+             then forallb (fun p => N.leb 1 (t2 p)) (firstn (snd (fst kp)) jl) else true) ka.
+Definition cl7 (ka : list ((N * nat) * (N * N * N))) (al jl : list (N * N * N)) : bool :=
+  if quiet_of al jl && allfin_of jl
+  then forallb (fun kp : (N * nat) * (N * N * N) => negb (N.eqb (fst (fst kp)) 2 && N.eqb (t1 (snd kp)) 2)) ka
+  else true.
+
+Definition clauses (lim : Z) (kinds : list (N * nat)) (al jl : list (N * N * N)) : list (nat * nat) :=
+  let ka := combine kinds al in
+  (if cl1 lim jl then [] else [(18, 1)]) ++ (if cl2 jl then [] else [(18, 2)]) ++ (if cl3 al jl then [] else [(18, 3)]) ++
+  (if cl4 lim jl then [] else [(18, 4)]) ++ (if cl5 lim al then [] else [(18, 5)]) ++ (if cl6 ka jl then [] else [(18, 6)]) ++
+  (if cl7 ka al jl then [] else [(18, 7)]).
+
+Definition kinds_after (m : mst) (e : list N) : list (N * nat) :=
+  match decode e with
+  | Some (HEnq _) => mkinds m ++ [(1%N, 0)]
+  | Some (HIdle _) => mkinds m ++ [(2%N, mnj m)]
+  | Some (HWatch _) => mkinds m ++ [(3%N, 0)]
+  | _ => mkinds m
+  end.
 
 Definition mon (m : mst) (e o : list N) : mst * list (nat * nat) :=
-  let kinds :=
-    match e with
-    | [1; _] => mkinds m ++ [(1%N, 0%nat)]
-    | [2; _] => mkinds m ++ [(2%N, mnj m)]
-    | [3; _] => mkinds m ++ [(3%N, 0%nat)]
-    | _ => mkinds m
-    end%N in
+  let kinds := kinds_after m e in
   match o with
   | na :: nj :: rest =>
     let na' := N.to_nat na in
     let al := triples (firstn (3 * na') rest) in
     let jl := triples (skipn (3 * na') rest) in
-    let lim := mlim m in
-    let exec := fold_right (fun p acc => (t1 p - t2 p + acc)%N) 0%N jl in
-    let quiet := forallb (fun p => negb (N.eqb (t1 p) 1)) al && forallb (fun p => negb (N.eqb (t3 p) 1)) jl in
-    let allfin := forallb (fun p => N.leb 1 (t2 p)) jl in
-    let ka := combine kinds al in
-    let c1 := if (0 <? lim)%Z then (Z.of_N exec <=? lim)%Z else true in
-    let c2 := forallb (fun p => N.leb (t1 p) 1) jl in
-    let c3 := if quiet && N.eqb exec 0 then forallb (fun p => N.eqb (t1 p) 1) jl else true in
-    let c4 := if (lim =? 1)%Z then prefix_closed (map (fun p => N.leb 1 (t1 p)) jl) else true in
-    let c5 := if (0 <? lim)%Z
-              then forallb (fun p => if N.eqb (t1 p) 7 || N.eqb (t1 p) 3
-                                     then (if N.ltb 0 (t2 p) then (Z.of_N (t3 p) =? lim)%Z else true) else true) al
-              else true in
-    let c6 := forallb (fun kp : (N * nat) * (N * N * N) =>
-                         if N.eqb (fst (fst kp)) 2 && N.eqb (t1 (snd kp)) 4
-                         then forallb (fun p => N.leb 1 (t2 p)) (firstn (snd (fst kp)) jl) else true) ka in
-    let c7 := if quiet && allfin
-              then forallb (fun kp : (N * nat) * (N * N * N) => negb (N.eqb (fst (fst kp)) 2 && N.eqb (t1 (snd kp)) 2)) ka
-              else true in
-    let fails :=
-      (if c1 then [] else [(18, 1)]) ++ (if c2 then [] else [(18, 2)]) ++ (if c3 then [] else [(18, 3)]) ++
-      (if c4 then [] else [(18, 4)]) ++ (if c5 then [] else [(18, 5)]) ++ (if c6 then [] else [(18, 6)]) ++
-      (if c7 then [] else [(18, 7)]) in
-    ({| mlim := lim; mkinds := kinds; mnj := N.to_nat nj |}, fails)
+    ({| mlim := mlim m; mkinds := kinds; mnj := N.to_nat nj |}, clauses (mlim m) kinds al jl)
   | _ => ({| mlim := mlim m; mkinds := kinds; mnj := mnj m |}, [])
   end.
 
